@@ -14,7 +14,10 @@ HERE = os.path.dirname(os.path.dirname(os.path.abspath(__file__)))
 priv = tempfile.mkdtemp(prefix="seed_verif_", dir="/tmp")
 res = {"property": prop, "patch": patch}
 def run(cmd, **kw):
-    p = subprocess.run(cmd, shell=isinstance(cmd, str), stdout=subprocess.PIPE, stderr=subprocess.STDOUT, text=True, **kw)
+    try:
+        p = subprocess.run(cmd, shell=isinstance(cmd, str), stdout=subprocess.PIPE, stderr=subprocess.STDOUT, text=True, timeout=2400, **kw)
+    except subprocess.TimeoutExpired as ex:
+        return 124, (ex.stdout or "") if isinstance(ex.stdout, str) else (ex.stdout or b"").decode(errors="replace")
     return p.returncode, p.stdout
 try:
     rc, out = run(["git", "-C", "/repo", "worktree", "add", "-f", wt, "HEAD"])
